@@ -465,6 +465,13 @@ func (s *Store) Bin(op Op, a, b *Term) *Term {
 				return s.Bin(OpAdd, a.a[0], s.Const(a.w, a.a[1].c+b.c))
 			}
 		}
+		// (x - y) + y = x ; y + (x - y) = x
+		if a.op == OpSub && a.a[1] == b {
+			return a.a[0]
+		}
+		if b.op == OpSub && b.a[1] == a {
+			return b.a[0]
+		}
 	case OpSub:
 		if a == b {
 			return s.Const(a.w, 0)
@@ -477,6 +484,13 @@ func (s *Store) Bin(op Op, a, b *Term) *Term {
 		bb, bc := splitAdd(b)
 		if ab != nil && ab == bb {
 			return s.Const(a.w, ac-bc)
+		}
+		// (x + y) - y = x ; (x + y) - x = y
+		if a.op == OpAdd && a.a[1] == b {
+			return a.a[0]
+		}
+		if a.op == OpAdd && a.a[0] == b {
+			return a.a[1]
 		}
 	case OpMul:
 		if a.op == OpConst {
